@@ -39,3 +39,17 @@ func VerifSetNextID(n gen.Node, v uint64) bool {
 	atomic.StoreUint64(&nn.nextID, v)
 	return true
 }
+
+// VerifResponseBacklog returns the number of replies waiting in the response channel of a
+// process (-1: no such process): the harness waits for a caller to have drained stale replies.
+func VerifResponseBacklog(n gen.Node, pid gen.PID) int {
+	nn, ok := n.(*node)
+	if !ok {
+		return -1
+	}
+	v, found := nn.processes.Load(pid)
+	if !found {
+		return -1
+	}
+	return len(v.(*process).response)
+}
